@@ -19,9 +19,6 @@ import DdsModel.Proofs.Enc13
 namespace Dds.C13
 open Dds Dds.Bc Dds.Enc13
 
-/-- a block given as its list of bytes -/
-def blkOf (l : List Nat) : Nat → Nat := fun i => l.getD i 0
-
 /-! ### endpoint ordering (`EndPoints::new_p4`, `new_p3_default`) -/
 
 /-- For ALL valid 5:6:5 pairs `new_p4` returns valid colours with `c0 > c1` as packed `u16` (so the
@@ -44,22 +41,6 @@ example : newP4 ⟨3, 7, 0⟩ ⟨3, 7, 0⟩ = (⟨3, 7, 1⟩, ⟨3, 7, 0⟩) ∧
     newP4 ⟨0, 0, 0⟩ ⟨31, 63, 31⟩ = (⟨31, 63, 31⟩, ⟨0, 0, 0⟩) ∧ newP3Default ⟨0, 0, 0⟩ ⟨0, 0, 0⟩ = (⟨0, 0, 0⟩, ⟨0, 0, 0⟩) := by
   decide
 
-theorem le16_withIndexes (e : C565 × C565) (idx : Nat) (h0 : e.1.toU16 < 65536) (h1 : e.2.toU16 < 65536)
-    (pre : List Nat) :
-    le16 (blkOf (pre ++ withIndexes e idx)) pre.length = e.1.toU16 ∧
-    le16 (blkOf (pre ++ withIndexes e idx)) (pre.length + 2) = e.2.toU16 := by
-  unfold le16 blkOf withIndexes
-  simp only [List.getD_eq_getElem?_getD]
-  rw [List.getElem?_append_right (by omega), List.getElem?_append_right (by omega),
-    List.getElem?_append_right (by omega), List.getElem?_append_right (by omega)]
-  have a0 : pre.length - pre.length = 0 := by omega
-  have a1 : pre.length + 1 - pre.length = 1 := by omega
-  have a2 : pre.length + 2 - pre.length = 2 := by omega
-  have a3 : pre.length + 2 + 1 - pre.length = 3 := by omega
-  rw [a0, a1, a2, a3]
-  simp only [List.getElem?_cons_zero, List.getElem?_cons_succ, Option.getD_some]
-  omega
-
 /-- Every colour block assembled from `new_p4` endpoints meets `Portable`: as a BC1 block, and behind any
 8-byte alpha block as a BC2 / BC3-family block. -/
 theorem p4_blocks_portable (c0 c1 : C565) (h0 : c0.Valid) (h1 : c1.Valid) (idx ok3 : Nat) :
@@ -67,14 +48,13 @@ theorem p4_blocks_portable (c0 c1 : C565) (h0 : c0.Valid) (h1 : c1.Valid) (idx o
     ∀ (alpha : List Nat) (f : Fmt), alpha.length = 8 → f ∈ [Fmt.bc2, .bc2p, .bc3, .bc3p, .rxgb, .bc3n] →
       Portable (some f) (blkOf (alpha ++ withIndexes (newP4 c0 c1) idx)) ok3 = true := by
   have h := new_p4_strict c0 c1 h0 h1
-  have hl : (newP4 c0 c1).2.toU16 < 65536 := toU16_lt _ h.2.2.1
   constructor
-  · have e := le16_withIndexes (newP4 c0 c1) idx h.2.2.2 hl []
+  · have e := le16_withIndexes (newP4 c0 c1) idx []
     simp only [List.nil_append, List.length_nil, Nat.zero_add] at e
     unfold Portable
     simp only [e.1, e.2, h.1, decide_true, Bool.true_or]
   · intro alpha f hlen hf
-    have e := le16_withIndexes (newP4 c0 c1) idx h.2.2.2 hl alpha
+    have e := le16_withIndexes (newP4 c0 c1) idx alpha
     rw [hlen] at e
     have hp : decide (le16 (blkOf (alpha ++ withIndexes (newP4 c0 c1) idx)) 8 >
         le16 (blkOf (alpha ++ withIndexes (newP4 c0 c1) idx)) 10) = true := by
@@ -87,34 +67,8 @@ theorem p4_blocks_portable (c0 c1 : C565) (h0 : c0.Valid) (h1 : c1.Valid) (idx o
 /-- `get_alpha_map`: bit `i` of the map is set exactly when the 8-bit alpha of pixel `i` is at least 128,
 i.e. `alpha/255 ≥ 1/2` (`ALPHA_THRESHOLD = 0.5`, comparison `>=`: one half itself is opaque). -/
 theorem alpha_threshold (alphas : List Nat) (hl : alphas.length = 16) (i : Nat) :
-    (alphaMap alphas).testBit i = (decide (i < 16) && decide (alphas.getD i 0 ≥ 128)) := by
-  have h := alphaFold_testBit alphas alphas.length (by omega) i
-  unfold alphaFold at h
-  unfold alphaMap
-  rw [h, hl]
-  congr 1
-  unfold opaque8
-  exact decide_eq_decide.mpr (by omega)
-
-theorem map_all_transparent (alphas : List Nat) (hl : alphas.length = 16)
-    (h : ∀ i, i < 16 → alphas.getD i 0 < 128) : alphaMap alphas = ALL_TRANSPARENT := by
-  apply Nat.eq_of_testBit_eq
-  intro i
-  rw [alpha_threshold alphas hl i]
-  by_cases hi : i < 16
-  · have := h i hi
-    have h2 : ¬ alphas.getD i 0 ≥ 128 := by omega
-    simp [ALL_TRANSPARENT, h2]
-  · simp [ALL_TRANSPARENT, hi]
-
-theorem map_all_opaque (alphas : List Nat) (hl : alphas.length = 16)
-    (h : ∀ i, i < 16 → alphas.getD i 0 ≥ 128) : alphaMap alphas = ALL_OPAQUE := by
-  apply Nat.eq_of_testBit_eq
-  intro i
-  rw [alpha_threshold alphas hl i, show ALL_OPAQUE = 2 ^ 16 - 1 from rfl, Nat.testBit_two_pow_sub_one]
-  by_cases hi : i < 16
-  · simp [hi, h i hi]
-  · simp [hi]
+    (alphaMap alphas).testBit i = (decide (i < 16) && decide (alphas.getD i 0 ≥ 128)) :=
+  alphaMap_testBit alphas hl i
 
 /-- BC2, BC2 premultiplied, BC3, BC3 premultiplied, RXGB and BC3n (`get_bc3_options`: `no_p3_default`) use
 ONLY `compress_p4`, whatever the quality and the alpha channel — hence (with `new_p4_strict`) `colour0 > colour1`. -/
@@ -138,14 +92,15 @@ theorem bc1_choice (q : Quality) (alphas : List Nat) (hl : alphas.length = 16) :
     have h0 : alphaMap alphas ≠ ALL_TRANSPARENT := by
       intro he
       have := alpha_threshold alphas hl j
-      rw [he] at this
-      simp [ALL_TRANSPARENT, hj, hoj] at this
+      rw [he, decide_eq_true hj, decide_eq_true hoj] at this
+      simp [ALL_TRANSPARENT] at this
     have h1 : alphaMap alphas ≠ ALL_OPAQUE := by
       intro he
       have := alpha_threshold alphas hl i
       rw [he, show ALL_OPAQUE = 2 ^ 16 - 1 from rfl, Nat.testBit_two_pow_sub_one] at this
       have h2 : ¬ alphas.getD i 0 ≥ 128 := by omega
-      simp [hi, h2] at this
+      rw [decide_eq_true hi, decide_eq_false h2] at this
+      simp at this
     simp [choice, bc1Options, h0, h1]
   · intro h
     rw [choice]
@@ -263,33 +218,31 @@ example : Portable (some .bc1) (blkOf [0, 0, 0xFF, 0xFF, 0x03, 0, 0, 0]) 1 = tru
 
 /-! ### BC4: endpoint order ↔ interpolation mode -/
 
-/-- the "make sure they are different" step of `EndPoints::new_inter6` / `quantize` on the rounded values
-(`min_u8`, `max_u8`) with the floor / ceiling fall-backs -/
-def fixDistinct (minR maxR minF maxC : Nat) : Nat × Nat :=
-  if minR = maxR then
-    if minF = maxC then (if minF = 0 then (minF, 1) else (minF - 1, maxC)) else (minF, maxC)
-  else (minR, maxR)
-
-/-- `new_inter6` emits `(c0, c1) = (max, min)` with `c0 > c1` — the decoder's six-interpolant mode — and
-`new_inter4 = inter6_to_inter4` emits the swapped pair with `c0 < c1` — the four-interpolant mode with the
-constants 0 and 1 at indexes 6, 7.  So the palette the encoder searched in is the palette the decoder uses. -/
+/-- `new_inter6` emits `(c0, c1) = (max, min)` with `c0 > c1`, which the decoder reads as the six-interpolant
+mode, and `new_inter4 = inter6_to_inter4` emits the swapped pair with `c0 < c1`, which the decoder reads as
+the four-interpolant mode with the constants 0 and 1 at indexes 6, 7.  So the palette the encoder searched in
+is the palette the decoder uses (6 interpolants iff `e0 > e1`). -/
 theorem bc4_mode_coupling (minR maxR minF maxC : Nat) (h1 : minR ≤ maxR) (h2 : minF ≤ maxC) :
-    let e := fixDistinct minR maxR minF maxC
-    e.1 < e.2 ∧ decide (e.2 > e.1) = true ∧ decide (e.1 > e.2) = false := by
-  unfold fixDistinct
-  by_cases a : minR = maxR
-  · by_cases b : minF = maxC
-    · by_cases c : minF = 0
-      · simp only [a, b, c, if_true]; subst c; simp
-      · simp only [a, b, c, if_true, if_false]
-        have : maxC - 1 < maxC := by omega
-        simp [this]; omega
-    · simp only [a, b, if_true, if_false]
-      have : minF < maxC := by omega
-      simp [this]; omega
-  · simp only [a, if_false]
-    have : minR < maxR := by omega
-    simp [this]; omega
+    (fixDistinct minR maxR minF maxC).1 < (fixDistinct minR maxR minF maxC).2 ∧
+    ∀ (ops : Bc4Ops) (blk : Nat → Nat) (p : Nat),
+      (blk 0 = (fixDistinct minR maxR minF maxC).2 → blk 1 = (fixDistinct minR maxR minF maxC).1 →
+        bc4uPx ops blk p = bc4Lut ops (ops.fromByte (blk 0)) (ops.fromByte (blk 1)) (blk 0) (blk 1) true (bc4Index blk p)) ∧
+      (blk 0 = (fixDistinct minR maxR minF maxC).1 → blk 1 = (fixDistinct minR maxR minF maxC).2 →
+        bc4uPx ops blk p = bc4Lut ops (ops.fromByte (blk 0)) (ops.fromByte (blk 1)) (blk 0) (blk 1) false (bc4Index blk p)) := by
+  have hlt : (fixDistinct minR maxR minF maxC).1 < (fixDistinct minR maxR minF maxC).2 := by
+    unfold fixDistinct
+    split
+    · split
+      · split
+        · show minF < 1; omega
+        · show minF - 1 < maxC; omega
+      · show minF < maxC; omega
+    · show minR < maxR; omega
+  refine ⟨hlt, fun ops blk p => ⟨fun a b => ?_, fun a b => ?_⟩⟩
+  · have : blk 0 > blk 1 := by omega
+    unfold bc4uPx; simp only [this, decide_true]
+  · have : ¬ blk 0 > blk 1 := by omega
+    unfold bc4uPx; simp only [this, decide_false]
 
 example : fixDistinct 7 7 7 7 = (6, 7) ∧ fixDistinct 0 0 0 0 = (0, 1) ∧ fixDistinct 7 7 6 7 = (6, 7) := by decide
 
@@ -356,31 +309,6 @@ theorem exact_single_decodes : ∀ c ∈ [(⟨0, 0, 0⟩ : C565), ⟨31, 0, 0⟩
 
 /-! ### representability floors (specification level, `BcSpec`) -/
 
-def dist (a b : Nat) : Nat := if a ≥ b then a - b else b - a
-
-/-- error of the nearest-palette assignment of the value `v` -/
-def nearestErr (pal : List Nat) (v : Nat) : Nat := pal.foldl (fun m x => min m (dist x v)) 256
-
-theorem foldl_min_le (f : Nat → Nat) (l : List Nat) : ∀ init, l.foldl (fun m x => min m (f x)) init ≤ init ∧
-    ∀ x ∈ l, l.foldl (fun m x => min m (f x)) init ≤ f x := by
-  induction l with
-  | nil => intro init; exact ⟨Nat.le_refl _, fun x hx => absurd hx (by simp)⟩
-  | cons a l ih =>
-    intro init
-    have h := ih (min init (f a))
-    refine ⟨Nat.le_trans h.1 (Nat.min_le_left _ _), fun x hx => ?_⟩
-    simp only [List.mem_cons] at hx
-    rcases hx with rfl | hx
-    · exact Nat.le_trans h.1 (Nat.min_le_right _ _)
-    · exact h.2 x hx
-
-/-- the four decoded 8-bit values of one channel of a colour palette with `m`-level endpoints (specification) -/
-def specPalette (four : Bool) (e0 e1 m : Nat) : List Nat := (List.range 4).map fun k => BcSpec.chan8 four k e0 e1 m
-
-/-- the eight decoded 8-bit values of a BC4 UNORM palette (specification) -/
-def specPalette4 (e0 e1 : Nat) : List Nat :=
-  (List.range 8).map fun k => BcSpec.rnd (255 * BcSpec.bc4Entry (decide (e0 > e1)) k e0 e1 255)
-
 /-- If a value is exactly an entry of a palette — of ANY endpoint pair, colour or BC4 — the nearest-palette
 assignment has zero error. -/
 theorem representable_floor (pal : List Nat) (v : Nat) (h : v ∈ pal) : nearestErr pal v = 0 := by
@@ -396,17 +324,6 @@ theorem representable_floor_spec (four : Bool) (e0 e1 m v : Nat) :
 
 example : 85 ∈ specPalette true 0 31 31 ∧ 128 ∈ specPalette false 0 31 31 ∧ 73 ∈ specPalette4 255 0 := by decide +kernel
 
-/-- the interpolation numerator `n = 2·a + b` of the "two thirds" entry reaches every value `0..3·m` -/
-def splitThird (m n : Nat) : Nat × Nat := (min m (n / 2), n - 2 * min m (n / 2))
-
-def greyChk (g : Nat) : Bool :=
-  (List.range 94).any fun n5 => (List.range 190).any fun n6 =>
-    let r := splitThird 31 n5
-    let gg := splitThird 63 n6
-    decide (r.1 ≤ 31 ∧ r.2 ≤ 31 ∧ gg.1 ≤ 63 ∧ gg.2 ≤ 63 ∧ dist (third5 r.1 r.2) g ≤ 1 ∧ dist (third6 gg.1 gg.2) g ≤ 1)
-
-theorem greyChk_all : ∀ g, g ≤ 255 → greyChk g = true := allUpTo greyChk 255 (by decide +kernel)
-
 /-- Single colours, BC1-type palettes: for EVERY 8-bit grey level `g` there is an endpoint pair per channel
 whose four-colour palette entry 2 (the same index for all channels) is within 1 of `g` in the specification's
 decoded values — far inside the step bounds `STEP5`, `STEP6` the oracle demands, so the oracle's bound is
@@ -415,14 +332,15 @@ theorem representable_floor_grey (g : Nat) (hg : g ≤ 255) :
     ∃ r0 r1 g0 g1, r0 ≤ 31 ∧ r1 ≤ 31 ∧ g0 ≤ 63 ∧ g1 ≤ 63 ∧
       dist (BcSpec.chan8 true 2 r0 r1 31) g ≤ 1 ∧ dist (BcSpec.chan8 true 2 g0 g1 63) g ≤ 1 ∧
       1 ≤ STEP5 ∧ 1 ≤ STEP6 := by
-  have h := greyChk_all g hg
-  unfold greyChk at h
-  rw [List.any_eq_true] at h
-  obtain ⟨n5, _, h⟩ := h
-  rw [List.any_eq_true] at h
-  obtain ⟨n6, _, h⟩ := h
-  have h := of_decide_eq_true h
-  obtain ⟨a, b, c, d, e, f⟩ := h
+  have h5 := greyChk5_all g hg
+  have h6 := greyChk6_all g hg
+  unfold greyChk5 at h5
+  unfold greyChk6 at h6
+  rw [List.any_eq_true] at h5 h6
+  obtain ⟨n5, _, h5⟩ := h5
+  obtain ⟨n6, _, h6⟩ := h6
+  obtain ⟨a, b, e⟩ := of_decide_eq_true h5
+  obtain ⟨c, d, f⟩ := of_decide_eq_true h6
   refine ⟨_, _, _, _, a, b, c, d, ?_, ?_, by decide, by decide⟩
   · rw [← c5_2t _ _ a b]; exact e
   · rw [← c6_2t _ _ c d]; exact f
